@@ -54,7 +54,8 @@ void cJSON_InitHooks(cJSON_Hooks* hooks)
 void *cJSON_malloc(size_t size) { return global_hooks.allocate(size); }
 void cJSON_free(void *object) { global_hooks.deallocate(object); }
 const char *cJSON_GetErrorPtr(void) { return (const char*)(global_error.json + global_error.position); }
-void *cJSON_ParseWithLengthOpts(const char *value) { global_error.json = (const unsigned char*)value; global_error.position = 0; return NULL; }
+static void good_private_error_helper(const char *value);
+void *cJSON_ParseWithLengthOpts(const char *value) { global_error.json = (const unsigned char*)value; global_error.position = 0; good_private_error_helper(value); return NULL; }
 const char *cJSON_Version(void) { static char version[15]; sprintf(version, "%i", 1); return version; }
 
 /* EFF1 */
@@ -143,6 +144,8 @@ const char *bad_EFF4_static_buffer(int v) { static char buf[16]; sprintf(buf, "%
 int good_const_static(int i) { static const int t[3] = { 1, 2, 3 }; return t[i % 3]; }
 void bad_EFF4_writes_global_error(void) { global_error.position = 1; }
 size_t bad_EFF4_reads_global_error(void) { return global_error.position; }
+const char *bad_EFF4_consults_accessor(const char *v) { (void)v; return cJSON_GetErrorPtr(); }
+static void good_private_error_helper(const char *value) { global_error.json = (const unsigned char*)value; global_error.position = 0; }
 static unsigned char cached_point = 0;
 unsigned char bad_EFF4_cached_decimal_point(void) { if (cached_point == 0) { cached_point = '.'; } return cached_point; }
 
